@@ -31,7 +31,11 @@ RULE = ("(a) focus templates: one Watch/Alarm under 0-3 wrappers (Block / always
         "A dry run locates registration / block-end / activation ticks; the FT01 trajectory (const, step up/down, "
         "pulse of width 1-3, ramp, plateau exactly at the threshold) crosses the threshold at such a tick +(-2..+3); "
         "0-2 cancel/force requests through Engine.cancel_instruction / force_instruction (run-log item ids) at such a "
-        "tick +(-2..+2). distinct = method shape hash x trajectory kind x request signature; non-trivial = at least "
+        "tick +(-2..+2). (c) force class (12 %): one Watch/Alarm outside any Watch/Alarm/macro (root level, or in one "
+        "Block that stays open), force request 1-8 ticks after its registration while the condition is false, "
+        "condition false for >= 20 further ticks, then false for good / true later (step, pulse) / true once "
+        "before the force; sometimes a second force or a cancel. "
+        "distinct = method shape hash x trajectory kind x request signature; non-trivial = at least "
         "one body line started, or a cancel was accepted, or a block ended with a registered Watch/Alarm inside")
 ASSUMPTIONS = [
     "'runs' is read as: a line of the body (direct child of the Watch/Alarm) is started by somebody other than that "
@@ -41,7 +45,9 @@ ASSUMPTIONS = [
     "'only after a tick in which its condition evaluated true' / 'once per activation': every run of the body needs an "
     "activation of its own - a True result of PInterpreter._evaluate_condition or an accepted force (Node._forced) - "
     "that happened after the last reset of the node (Alarm re-arm, reset by an enclosing Alarm / macro invocation) "
-    "and was not used up by an earlier run of the body; an evaluation made by a handler that survived the reset of "
+    "and was not used up by an earlier run of the body; an accepted force (the flag going True) accounts for ONE "
+    "activation: it is used up by the next activation of the node, a force flag that merely stays set across a "
+    "re-arm is not a new force; an evaluation made by a handler that survived the reset of "
     "its enclosing scope is accepted (lenient reading)",
     "a Watch outside Alarm/macro bodies may run its body once per run of the method; inside such a scope once per "
     "reset by that scope (each invocation of the scope has its own Watch)",
